@@ -536,6 +536,40 @@ func SpecMatch(pattern string, hasWild bool, s string) bool {
 //@   requires e != nil && e.cache != nil
 //@   ensures[C06,C12] len(e.queue) == old(len(e.queue)) + 1
 //@   assigns e.queue, elems(e.queue)
+// The queued step of a resource reset: the plain resource and every query variant of the event
+// subscription are re-fetched, each once, each under the throttle of this reset.
+//@ closure (*EventSubscription).handleResetResource#1
+//@   requires e != nil
+//@   assumes predEventSubOK(e) && e.cache.mq != nil && (t != nil ==> predThrottleInv(t))
+//@   ensures[C12] callcount("handleResetResource") == old(callcount("handleResetResource")) + ite(old(e.base) != nil && old(e.base.query) == "", 1, 0) + old(card(e.queries))
+//@   assert[C12,C19] e.base.handleResetResource#1: arg0 == t
+//@   assert[C12,C19] rs.handleResetResource#1: arg0 == t
+//@   loop 1 invariant e.queries == old(e.queries)
+//@   loop 1 invariant card(e.queries) == old(card(e.queries))
+//@   loop 1 invariant t != nil ==> predThrottleInv(t)
+//@   loop 1 invariant callcount("handleResetResource") == old(callcount("handleResetResource")) + ite(old(e.base) != nil && old(e.base.query) == "", 1, 0) + iters1
+//@   loop 1 assume predEventSubOK(e) && e.cache.mq != nil
+//@   safety[C15]
+// The queued step of an access reset: every subscriber of the plain resource and of every query
+// variant is asked to re-validate its access, under the throttle of this reset.
+//@ closure (*EventSubscription).handleResetAccess#1
+//@   requires e != nil
+//@   assumes predEventSubOK(e) && (t != nil ==> predThrottleInv(t))
+//@   ensures[C06,C12] callcount("handleResetAccess") == old(callcount("handleResetAccess")) + ite(old(e.base) != nil && old(e.base.query) == "", 1, 0) + old(card(e.queries))
+//@   assert[C06,C19] e.base.handleResetAccess#1: arg0 == t
+//@   assert[C06,C19] rs.handleResetAccess#1: arg0 == t
+//@   loop 1 invariant e.queries == old(e.queries) && card(e.queries) == old(card(e.queries))
+//@   loop 1 invariant callcount("handleResetAccess") == old(callcount("handleResetAccess")) + ite(old(e.base) != nil && old(e.base.query) == "", 1, 0) + iters1
+//@   loop 1 assume predEventSubOK(e)
+//@   safety[C15]
+// handleResetAccess: every subscriber of the resource is told once, with the throttle it was given.
+//@ func (*ResourceSubscription).handleResetAccess
+//@   requires rs != nil && (t != nil ==> predThrottleInv(t))
+//@   ensures[C06,C12] callcount("Reaccess") == old(callcount("Reaccess")) + old(card(rs.subs))
+//@   assert[C06,C19] sub.Reaccess#1: arg0 == t && has(rs.subs, sub)
+//@   loop 1 invariant rs.subs == old(rs.subs) && card(rs.subs) == old(card(rs.subs)) && callcount("Reaccess") == old(callcount("Reaccess")) + iters1
+//@   assigns nothing
+//@   safety[C15]
 //@ func (*Cache).handleSystemReset
 //@   requires c != nil
 //@   assumes forall n string :: has(c.eventSubs, n) ==> c.eventSubs[n] != nil && c.eventSubs[n].cache != nil
@@ -756,6 +790,8 @@ func SpecMatch(pattern string, hasWild bool, s string) bool {
 //@   ensures[C12] !old(rs.resetting) && t == nil ==> callcount("SendRequest") == old(callcount("SendRequest")) + 1 && callcount("Add") == old(callcount("Add"))
 //@   ensures[C12] !old(rs.resetting) && t != nil ==> callcount("Add") == old(callcount("Add")) + 1
 //@   assert[C12,C14] rs.e.cache.mq.SendRequest#2: arg0 == "get." + rs.e.ResourceName
+//@   ensures[C19] t != nil ==> predThrottleInv(t)
+//@   assigns rs.resetting, t.running, t.queue, elems(t.queue)
 //@   safety[C15]
 //@ closure (*ResourceSubscription).handleResetResource#1
 //@   requires rs != nil && rs.e != nil && rs.e.cache != nil && rs.e.cache.mq != nil && t != nil && subj == "get." + rs.e.ResourceName
